@@ -238,6 +238,8 @@ pub fn run(ctx: &Ctx, rep: &mut Report) {
     engine::drive(ctx, rep, "encoder", codec::codec_case(false), cases, check_encoder);
     let cases = ctx.share(ctx.tier.pick(1_500, 30_000));
     engine::drive(ctx, rep, "encoder-large", codec::codec_case(true), cases, check_encoder);
+    let cases = ctx.share(ctx.tier.pick(4_000, 60_000));
+    engine::drive(ctx, rep, "encoder-power-of-two-aligned", codec::aligned_case(), cases, check_encoder);
     let cases = ctx.share(ctx.tier.pick(40_000, 600_000));
     engine::drive(ctx, rep, "decoder", dec_case(false), cases, check_decoder);
     let cases = ctx.share(ctx.tier.pick(2_000, 40_000));
@@ -256,7 +258,7 @@ fn replay(_ctx: &Ctx, group: &str, case: &Value) -> CaseResult {
 pub fn def() -> PropDef {
     PropDef {
         id: "C07",
-        rule: "Encoder groups: C01's case type; oracle: output equals byte for byte an independently written reference encoder (limits 252/64008 and radix 253 are literals in the reference). Decoder groups: a case is (optional payload whose canonical encoding is the starting string, a list of mutations - overwrite a chunk-header byte with 253..255 / near-limit / small values, set/delete/insert bytes, truncate, append an extra chunk - or a short arbitrary string, and a feeding plan with cuts and input methods); oracle: accept/reject verdict and decoded bytes equal the reference decoder's, no panic. truncate-every-position enumerates every truncation of the encodings of boundary-length payloads. Non-trivial: the string has >= 2 chunks (reaches a two-byte header), or is rejected for a reason other than being empty. Distinct: hash of the serialised case / by enumeration. Small-scope groups: all strings over {FE,FD,00} up to max_len x 4 limit pairs x cuts x methods (encoder), all strings over {00,01,02,03,05,FC,FD,FE} up to max_len with limits 3/5 x cuts x methods (decoder), through the hcobs::verif hook.",
+        rule: "Encoder groups: C01's case type; oracle: output equals byte for byte an independently written reference encoder (limits 252/64008 and radix 253 are literals in the reference). encoder-power-of-two-aligned: C02's aligned payloads. Decoder groups: a case is (optional payload whose canonical encoding is the starting string, a list of mutations - overwrite a chunk-header byte with 253..255 / near-limit / small values, set/delete/insert bytes, truncate, append an extra chunk - or a short arbitrary string, and a feeding plan with cuts and input methods); oracle: accept/reject verdict and decoded bytes equal the reference decoder's, no panic. truncate-every-position enumerates every truncation of the encodings of boundary-length payloads. Non-trivial: the string has >= 2 chunks (reaches a two-byte header), or is rejected for a reason other than being empty. Distinct: hash of the serialised case / by enumeration. Small-scope groups: all strings over {FE,FD,00} up to max_len x 4 limit pairs x cuts x methods (encoder), all strings over {00,01,02,03,05,FC,FD,FE} up to max_len with limits 3/5 x cuts x methods (decoder), through the hcobs::verif hook.",
         assumptions: &[
             "the reference codec (refimpl/hcobs_ref.rs) is correct; it is validated against the expected pairs quoted from the crate's unit tests (cargo test in /verif/harness)",
             "decoders are not fed after their first error",
